@@ -1,6 +1,6 @@
 """C19 - run_experiment_group is exactly its documented expansion (translation validation).
 
-Schema.tla: Expand(g) and Rejected(g, others); TLC enumerates 4806 abstract groups (0-2 instances, name clashes with
+Schema.tla: Expand(g) and Rejected(g, others); TLC enumerates 4854 abstract groups (0-3 instances, name clashes with
 each other / the group / another task, args, options, parallelizable, shared deps, chaining) and exports each with its
 expansion.  For each, the harness writes the GROUP form and the EXPLICIT form generated from the specification's
 expansion, loads both with the real TaskIndex (materialised graphs must be equal; rejected iff the specification says
@@ -141,9 +141,10 @@ def main(tier):
     insts = C.tlc_printed_json(ex)
     rng.shuffle(insts)
     if tier == "quick":
-        rej = [i for i in insts if i["rejected"]][:120]
-        acc = [i for i in insts if not i["rejected"]][:380]
-        insts = rej + acc
+        three = [i for i in insts if len(i["g"]["insts"]) >= 3]
+        rej = [i for i in insts if i["rejected"] and len(i["g"]["insts"]) < 3][:100]
+        acc = [i for i in insts if not i["rejected"] and len(i["g"]["insts"]) < 3][:350]
+        insts = three + rej + acc
     res = C.fork_map(pair_worker, [(inst, k) for k, inst in enumerate(insts)], timeout=300)
     traces, meta = [], {}
     disagreements = 0
@@ -195,7 +196,7 @@ def main(tier):
         "traces_validated_against_impl": len(traces),
         "rule": "program = abstract group from Schema.tla (instances 0-2 with names {e1,e2,g,d1}, args, options, parallelizable; deps "
                 "{none, [:d1], [:d1, //:d2]}; chaining) in group form and in the explicit form generated from Expand(g)%s" % (
-                    " (sample of 500)" if tier == "quick" else " (all 4806)"),
+                    " (all three-instance groups + a sample of 450)" if tier == "quick" else " (all)"),
         "exhaustive": tier == "thorough",
     })
     rep.add_sample({"group": insts[0]["g"], "expansion": insts[0]["expansion"], "rejected": insts[0]["rejected"],
